@@ -18,6 +18,14 @@ func init() {
 }
 
 func c19(c *q.Ctx) {
+	// a proposal's deposit is unlocked by Thaw exactly once: only a proposal that is still in the voting state can be
+	// thawed (Thaw itself moves it to cancelled, and the lock record is not deleted)
+	if th := c.Fn("kernel/contract/proposal/propose::(*KernMethod).Thaw"); th != nil {
+		voting := q.Cond{Canon: "(\"voting\" == utils.Parse(*)#0.Status)", Sense: false}
+		for _, tgt := range []string{"KContext.Call", "KContext.Put"} {
+			c.Guard(th, voting, q.ToCall(tgt), q.Opt{})
+		}
+	}
 	// one account, one record: the balance key is an injective function of the account name exactly as the contract
 	// compares names (sender == receiver is decided on the raw strings) - a key that normalises the name makes two
 	// names share a record that the transfer treats as two
